@@ -51,7 +51,8 @@ def symbolic_units():
             key = SInt(ctx.int_const("apiKey"))
             ver = SInt(ctx.int_const("version", 0))
             flex = SBool(ctx.bool_const("is_flexible"))
-            schema = SRec(MessageSchema, {"type": kind, "apiKey": key})
+            from kvc.core import SStr
+            schema = SRec(MessageSchema, {"type": kind, "apiKey": key, "name": SStr(ctx.str_const("name"))})
             it = make_interp(ctx, reg, inline=inline)
             args = [schema, ver, flex] if kind == "request" else [schema, flex]
             o = run_body(it, fn, args)
@@ -79,7 +80,8 @@ def symbolic_units():
                 key = SInt(ctx.int_const("apiKey"))
                 ver = SInt(ctx.int_const("version", 0))
                 fv = VersionRange(float("inf"), float("-inf")) if first_flex is None else VersionRange(first_flex, float("inf"))
-                schema = SRec(MessageSchema, {"type": kind, "apiKey": key, "flexibleVersions": fv})
+                from kvc.core import SStr
+                schema = SRec(MessageSchema, {"type": kind, "apiKey": key, "flexibleVersions": fv, "name": SStr(ctx.str_const("name"))})
                 it = make_interp(ctx, reg, inline=inline)
                 o = run_body(it, H.get_header_schema_import, [schema, ver])
                 flexible = z3.BoolVal(False) if first_flex is None else ver.t >= first_flex
